@@ -89,7 +89,8 @@ Definition dinit (c : dcfg) : dst :=
      cmac := []; chash := []; csub := []; cvlan := []; nsid := 0; starts := []; stops := [] |}.
 
 Inductive dop :=
-| Discover (mac cid : N) (relayed : bool)
+| Discover (mac cid : N) (relayed : bool)       (* cid: the Circuit-ID sub-option of option 82; 0 = none (no option 82, or
+                                                   relay information without sub-option 1, e.g. Remote-ID only) *)
 | Request (mac ip cid : N) (relayed : bool)
 | Release (mac : N)
 | Decline (mac ip : N)            (* ip = requested-address option; 0 = absent *)
@@ -202,7 +203,7 @@ Definition dheld (s : dst) (e : dsess) : list res :=
   (if ahas (se_mac e) (alloc s) || negb (smem (se_ip e) (avail s) || smem (se_ip e) (unavail s))
    then [RAddr (se_ip e)] else []) ++
   (if smem (se_ip e) (nat s) then [RNat (se_ip e)] else []) ++
-  (if smem (se_ip e) (qos s) || smem (se_ip e) (qosi s) then [RQos (se_ip e)] else []) ++
+  (if smem (se_ip e) (qos s) || smem (se_ip e) (qosi s) || smem (se_ip e) (qost s) then [RQos (se_ip e)] else []) ++
   (if ahas (se_mac e) (cmac s) then [RCacheMac (se_mac e)] else []) ++
   (if negb (se_cid e =? 0) && ahas (se_cid e) (chash s) then [RCacheCid (se_cid e)] else []) ++
   (if negb (se_cid e =? 0) && ahas (se_cid e) (csub s) then [RCacheCidSub (se_cid e)] else []) ++
@@ -246,15 +247,19 @@ Definition dstep (c : dcfg) (s : dst) (o : dop) : dst * (N * N * list (N * N)) *
         let sid := if isnew then (if newsid then nsid s1 + 1 else 0)
                    else match ex with Some e => l_sid e | None => 0 end in
         let l := {| l_ip := ip; l_cid := cid'; l_sid := sid; l_ttl := c_lease c |} in
-        (* AllocateNAT: the kernel Put comes before the bookkeeping; a failed Put allocates nothing *)
+        (* A Put into a full kernel map fails for a NEW key only (an existing key is updated in place).
+           AllocateNAT: the kernel Put comes before the bookkeeping; a failed Put allocates nothing *)
         let natok := c_nat c && isnew && negb (full c 6 && negb (smem ip (nat s1))) &&
                      (smem ip (nat s1) || (N.of_nat (length (nat s1)) <? c_natcap c)) in
-        (* SetSubscriberQoS: egress Put, then ingress Put, tracked only when both succeeded *)
-        let eg_ok := c_qos c && isnew && negb (full c 4) in
-        let in_ok := eg_ok && negb (full c 5) in
-        (* the client moved to another circuit: the old circuit's index and cache entries go *)
+        (* SetSubscriberQoS: egress Put, then ingress Put, tracked only when both succeeded; the error is
+           logged by handleRequest and the ACK goes out all the same *)
+        let eg_ok := c_qos c && isnew && negb (full c 4 && negb (smem ip (qos s1))) in
+        let in_ok := eg_ok && negb (full c 5 && negb (smem ip (qosi s1))) in
+        (* the client renews from another circuit: the old circuit's index entry and cache entries go,
+           provided the index still points at the lease being replaced (dropCircuitIDBindings) *)
         let oldcid := if isnew then 0 else match ex with Some e => l_cid e | None => 0 end in
-        let moved := negb (oldcid =? 0) && negb (oldcid =? cid') in
+        let moved := negb (oldcid =? 0) && negb (oldcid =? cid') &&
+                     match aget oldcid (bycid s1) with Some p => fst p =? mac | None => false end in
         let bycid0 := if moved then adel oldcid (bycid s1) else bycid s1 in
         let chash0 := if moved then adel oldcid (chash s1) else chash s1 in
         let csub0 := if moved then adel oldcid (csub s1) else csub s1 in
@@ -265,9 +270,9 @@ Definition dstep (c : dcfg) (s : dst) (o : dop) : dst * (N * N * list (N * N)) *
                      qos := if eg_ok then sadd ip (qos s1) else qos s1;
                      qosi := if in_ok then sadd ip (qosi s1) else qosi s1;
                      qost := if in_ok then sadd ip (qost s1) else qost s1;
-                     cmac := if c_cache c && negb (full c 1) then aput mac ip (cmac s1) else cmac s1;
-                     chash := if c_cache c && negb (cid' =? 0) && negb (full c 2) then aput cid' mac chash0 else chash0;
-                     csub := if c_cache c && negb (cid' =? 0) && negb (full c 3) then aput cid' ip csub0 else csub0;
+                     cmac := if c_cache c && negb (full c 1 && negb (ahas mac (cmac s1))) then aput mac ip (cmac s1) else cmac s1;
+                     chash := if c_cache c && negb (cid' =? 0) && negb (full c 2 && negb (ahas cid' chash0)) then aput cid' mac chash0 else chash0;
+                     csub := if c_cache c && negb (cid' =? 0) && negb (full c 3 && negb (ahas cid' csub0)) then aput cid' ip csub0 else csub0;
                      cvlan := cvlan s1;
                      nsid := if isnew && newsid then nsid s1 + 1 else nsid s1;
                      starts := if isnew && c_radius c then sid :: starts s1 else starts s1;
@@ -415,7 +420,10 @@ Inductive pop :=
 | TdPadt (inst mac : N)              (* SessionTeardown.HandleClientPADT(object, mac, id) *)
 | TdTerm (inst : N)                  (* SessionTeardown.TerminateSession(object, AdminReset, "") *)
 | TdAll (order : list N)            (* SessionTeardown.TerminateAll (maintenance / shutdown); order = Go map iteration order of the table, as instances (oracle) *)
-| POverlap (first second : pop).     (* [second] ran to completion while [first] (a teardown path) was held inside cleanup *)
+| POverlap (held : bool) (first second : pop).
+    (* two ending paths at once: [second] was started while [first] (a teardown path) was held inside cleanup
+       (held = true: at the eBPF-remove callback or waiting for the Accounting-Response, i.e. after the
+       torn-down mark and before RemoveSession), or after [first] had already returned (held = false) *)
 
 Definition pset (s : pst) (h : amap psess) (t m : amap N) (av : list N) (al : amap N) (st : list N) : pst :=
   {| heap := h; tbl := t; midx := m; nextid := nextid s; ninst := ninst s; pavail := av; palloc := al; pstops := st |}.
@@ -477,6 +485,10 @@ Definition pterm (c : pcfg) (acc : pst * list (N * N) * list N) (i : N) : pst * 
       let '(s2, ev2, mk2) := pcleanup c s1 i in
       (s2, ev ++ (4, ps_id x) :: ev2, mk ++ mk2)
   end.
+
+(* TerminateAll over the session list [live] it read from the table, met in the (oracle) order *)
+Definition ptdall (c : pcfg) (live : list N) (s : pst) (order : list N) : pst * list (N * N) * list N :=
+  fold_left (pterm c) (filter (fun i => smem i live) order ++ filter (fun i => negb (smem i order)) live) (s, [], []).
 
 Definition pstep1 (c : pcfg) (s : pst) (o : pop) : pst * list (N * N) * list N :=
   let seth (s : pst) (i : N) (x : psess) := pset s (aput i x (heap s)) (tbl s) (midx s) (pavail s) (palloc s) (pstops s) in
@@ -549,22 +561,25 @@ Definition pstep1 (c : pcfg) (s : pst) (o : pop) : pst * list (N * N) * list N :
       | None => (s, [], [])
       end
   | TdTerm i => pterm c (s, [], []) i
-  | TdAll order =>
-      let live := map snd (tbl s) in
-      fold_left (pterm c) (filter (fun i => smem i live) order ++ filter (fun i => negb (smem i order)) live) (s, [], [])
-  | POverlap _ _ => (s, [], [])
+  | TdAll order => ptdall c (map snd (tbl s)) s order
+  | POverlap _ _ _ => (s, [], [])
   end.
 
-(* Overlapping endings of one session. cleanup holds the teardown mutex from its first to its last
-   step and every step is idempotent, so whatever the point at which the first path is held, the visible
-   outcome is the one of running the first path and then the second (a second teardown path waits for the
-   mutex and then finds the session torn down; a frame handler or the idle cleanup releases and removes
-   what cleanup releases and removes again without effect). *)
+(* Overlapping endings. cleanup holds the teardown mutex from its first to its last step, marks the object
+   torn down before anything else, and every step is idempotent; so whatever the point at which the first
+   path is held, the resources end up as after running the first path and then the second: a second
+   teardown path waits for the mutex and then finds the object torn down; a frame handler or the idle
+   cleanup releases and removes what cleanup then releases and removes again without effect.  One thing
+   differs from the sequential run: a TerminateAll started meanwhile reads the session list while the held
+   session is still in the table, so it still sends that session a PADT before cleanup turns it away. *)
 Definition pstep (c : pcfg) (s : pst) (o : pop) : pst * list (N * N) * list N :=
   match o with
-  | POverlap a b =>
+  | POverlap held a b =>
       let '(s1, e1, m1) := pstep1 c s a in
-      let '(s2, e2, m2) := pstep1 c s1 b in
+      let '(s2, e2, m2) := match b with
+                           | TdAll order => if held then ptdall c (map snd (tbl s)) s1 order else pstep1 c s1 b
+                           | _ => pstep1 c s1 b
+                           end in
       (s2, e1 ++ e2, m1 ++ m2)
   | _ => pstep1 c s o
   end.
